@@ -25,6 +25,9 @@ func C14Configs(p *spec.Program) []spec.Config {
 		"Sink.Status.Str": {"UsePathValidator()"}, "Leaf.Str": {"UseTypeValidator()", "UseSimValidator()"}}
 	b.PlanModifiers = map[string][]string{"Sink.Spec.Name": {"PathModifier()"}, "Mid.Name": {"TypeModifier()"}, "Leaf.Num": {"TypeModifier()"}, "Sink.Status.Num": {"PathModifier()"}}
 	b.NameOverrides = map[string]string{"Naming.Overridden": "renamed", "Leaf.Flag": "flag_x", "Sink.Status.Flag": "flag_by_path", "Sink.Spec.Name": "name_by_path", "Mid.Name": "name_by_type"}
+	tt, dt := *spec.SimTimeType, *spec.SimDurationType
+	tt.TypeConstructor, dt.TypeConstructor = "UseSimTime()", "example.com/x/wrappers.UseDuration()"
+	b.TimeType, b.DurationType = &tt, &dt
 	b.CustomTypes = map[string]string{"Sink.Ratio": "CustomRatio", "Scalars.FBool": "CustomBool",
 		"Sink.On": "example.com/x/wrappers.Traits", "Sink.Status.Str": "example.com/x/wrappers.ByPath", "Leaf.Str": "example.com/x/wrappers.ByType"}
 	// no exact key for the qualified types: shorter, overlapping keys must not be picked by iteration order
